@@ -3,6 +3,7 @@
    strings. *)
 Require Import Coq.Strings.String.
 Require Import Base.Bytes Gen.TextTab Text.Escape Text.EscapeProofs Text.Codepage.
+Require Import Lia.
 Local Open Scope N_scope.
 
 (* LFS's assignment of Windows codepages to marker letters (hand transcription of the LFS
@@ -78,24 +79,54 @@ Section Proofs.
     - intros Hs. rewrite enc_from_app, Hs. reflexivity.
   Qed.
 
-  (* ---- decoding text without marker pairs is one decode in the default codepage ---- *)
+  (* ---- decoding ASCII text without marker pairs is one decode in the default codepage ----
+     (markers are found by the decoder's own left-to-right scan: an escaped caret is a pair) *)
   Fixpoint no_marker (bs : list N) : bool :=
     match bs with
     | [] => true
     | b :: t => match t with
-                | l :: _ => negb (is_caret b && is_letter l) && no_marker t
+                | l :: t' => if is_caret b then (if is_letter l then false else if is_caret l then no_marker t' else no_marker t)
+                             else no_marker t
                 | [] => true
                 end
     end.
 
-  Lemma dls_no_marker bs : forall cur acc, no_marker bs = true -> dls cur acc bs = dec cur (rev acc ++ bs).
+  Lemma no_marker_cons2 b l t' :
+    no_marker (b :: l :: t') =
+    if is_caret b then (if is_letter l then false else if is_caret l then no_marker t' else no_marker (l :: t')) else no_marker (l :: t').
+  Proof. reflexivity. Qed.
+
+  Hypothesis lead_ascii : forall l b, is_ascii b = true -> lead l b = false.
+
+  Lemma dls_cons2 cur acc b l t' :
+    dls cur acc (b :: l :: t') =
+    if is_caret b then
+      if is_letter l then dec cur (rev acc) ++ (if l =? gen_propagate_letter then [caret; l] else []) ++ dls l [] t'
+      else if is_caret l then dls cur (l :: b :: acc) t'
+      else dls cur (b :: acc) (l :: t')
+    else if lead cur b then dls cur (l :: b :: acc) t'
+    else dls cur (b :: acc) (l :: t').
+  Proof. reflexivity. Qed.
+
+  Lemma dls_no_marker n : forall bs cur acc, (length bs <= n)%nat -> forallb is_ascii bs = true -> no_marker bs = true ->
+    dls cur acc bs = dec cur (rev acc ++ bs).
   Proof.
-    induction bs as [|b t IH]; intros cur acc; cbn [Codepage.dls no_marker].
-    - intros _. rewrite app_nil_r. reflexivity.
-    - destruct t as [|l t'].
-      + intros _. cbn [rev]. reflexivity.
-      + intros H. apply andb_prop in H as [Hm Hr]. apply negb_true_iff in Hm. rewrite Hm.
-        rewrite (IH cur (b :: acc) Hr). cbn [rev]. rewrite <- app_assoc. reflexivity.
+    induction n as [|n IH]; intros bs cur acc Hlen Ha Hm.
+    - destruct bs; [|cbn in Hlen; lia]. cbn [Codepage.dls]. rewrite app_nil_r. reflexivity.
+    - destruct bs as [|b t]; [cbn [Codepage.dls]; rewrite app_nil_r; reflexivity|].
+      cbn [length] in Hlen. cbn [forallb] in Ha. apply andb_prop in Ha as [Hab Hat].
+      destruct t as [|l t']; [cbn [Codepage.dls rev]; reflexivity|].
+      rewrite dls_cons2. rewrite no_marker_cons2 in Hm.
+      destruct (is_caret b) eqn:Hc.
+      + destruct (is_letter l); [discriminate|]. destruct (is_caret l).
+        * cbn [forallb] in Hat. apply andb_prop in Hat as [Hal Hat'].
+          rewrite (IH t' cur (l :: b :: acc)); [|cbn [length] in Hlen; lia|exact Hat'|exact Hm].
+          cbn [rev]. rewrite <- !app_assoc. reflexivity.
+        * rewrite (IH (l :: t') cur (b :: acc)); [|cbn [length] in Hlen |- *; lia|exact Hat|exact Hm].
+          cbn [rev]. rewrite <- app_assoc. reflexivity.
+      + rewrite (lead_ascii _ _ Hab).
+        rewrite (IH (l :: t') cur (b :: acc)); [|cbn [length] in Hlen |- *; lia|exact Hat|exact Hm].
+        cbn [rev]. rewrite <- app_assoc. reflexivity.
   Qed.
 
   Hypothesis dec_ascii : forall l bs, forallb is_ascii bs = true -> dec l bs = bs.
@@ -104,64 +135,6 @@ Section Proofs.
     to_lossy_string bs = bs.
   Proof.
     intros Ha Hm. unfold Codepage.to_lossy_string. destruct bs as [|b t]; [reflexivity|].
-    rewrite (dls_no_marker _ _ _ Hm). cbn [rev app]. apply dec_ascii. exact Ha.
-  Qed.
-
-  (* ---- C12 composition: escaped ASCII text without carets survives the wire path ---- *)
-  Definition esc_letters_ok : bool :=
-    forallb (fun '(a, b) => is_ascii b && negb (is_letter b)) gen_escape_tab && is_ascii caret && negb (is_letter caret).
-  Lemma esc_letters_hold : esc_letters_ok = true. Proof. vm_compute. reflexivity. Qed.
-
-  Lemma esc_plain_shape s : forallb is_ascii s = true -> existsb is_caret s = false ->
-    forallb is_ascii (esc s) = true /\ no_marker (esc s) = true /\
-    (match esc s with b :: _ => is_caret b = false \/ True | [] => True end).
-  Proof.
-    pose proof esc_letters_hold as T. unfold esc_letters_ok in T.
-    apply andb_prop in T as [T Tnl]. apply andb_prop in T as [T Tca]. rewrite forallb_forall in T.
-    induction s as [|c t IH]; [intros _ _; repeat split|].
-    cbn [forallb existsb]. intros Ha Hc. apply andb_prop in Ha as [Hac Hat]. apply orb_false_iff in Hc as [Hcc Hct].
-    destruct (IH Hat Hct) as [H1 [H2 _]].
-    rewrite (esc_plain _ _ Hcc). destruct (lookup c gen_escape_tab) as [d|] eqn:He.
-    - apply lookup_in in He. specialize (T _ He). cbn beta iota in T. apply andb_prop in T as [Tad Tnd].
-      apply negb_true_iff in Tnd.
-      split; [cbn [forallb]; rewrite Tca, Tad, H1; reflexivity|]. split; [|right; exact I].
-      cbn [no_marker]. rewrite Tnd, andb_false_r. cbn [negb andb].
-      destruct (esc t) as [|x r] eqn:Ee; [reflexivity|].
-      (* d is an escape letter, not a caret: (d, x) is no marker *)
-      assert (is_caret d = false) as Hcd.
-      { destruct (is_caret d) eqn:E; [|reflexivity]. apply N.eqb_eq in E. subst d.
-        pose proof tab_inverse_ok as TI. unfold tab_inverse in TI.
-        apply andb_prop in TI as [TI _]. apply andb_prop in TI as [TI _]. apply andb_prop in TI as [_ TI].
-        rewrite forallb_forall in TI. specialize (TI _ He). cbn beta iota in TI.
-        apply andb_prop in TI as [TI _]. apply andb_prop in TI as [TI _]. apply andb_prop in TI as [_ TI].
-        rewrite N.eqb_refl in TI. discriminate. }
-      rewrite Hcd. cbn [andb negb]. exact H2.
-    - split; [cbn [forallb]; rewrite Hac, H1; reflexivity|]. split; [|left; exact Hcc].
-      cbn [no_marker]. destruct (esc t) as [|x r] eqn:Ee; [reflexivity|]. rewrite Hcc. cbn [andb negb]. exact H2.
-  Qed.
-
-  Theorem escaped_ascii_survives_wire s : forallb is_ascii s = true -> existsb is_caret s = false ->
-    unescape (to_lossy_string (to_lossy_bytes (escape s))) = s.
-  Proof.
-    intros Ha Hc. rewrite escape_is_esc. destruct (esc_plain_shape s Ha Hc) as [H1 [H2 _]].
-    rewrite (ascii_passthrough_bytes _ H1), (ascii_passthrough_string _ H1 H2).
-    rewrite unescape_is_unesc. apply unesc_esc.
-  Qed.
-
-  (* ... but a caret followed by a codepage letter does not (the decoder's marker scan ignores
-     the escaping): witness "^L" *)
-  Theorem caret_marker_refuted :
-    exists s, forallb is_ascii s = true /\ unescape (to_lossy_string (to_lossy_bytes (escape s))) <> s.
-  Proof.
-    exists [94; 76]. split; [reflexivity|].
-    assert (escape [94; 76] = [94; 94; 76]) as -> by (vm_compute; reflexivity).
-    rewrite ascii_passthrough_bytes by reflexivity.
-    assert (to_lossy_string [94; 94; 76] = [94]) as ->.
-    { unfold Codepage.to_lossy_string. cbn [Codepage.dls].
-      change (is_caret 94 && is_letter 94) with false. cbv iota.
-      change (is_caret 94 && is_letter 76) with true. cbv iota.
-      change (76 =? gen_propagate_letter) with false. cbv iota. cbn [rev app].
-      rewrite !dec_ascii by reflexivity. reflexivity. }
-    vm_compute. discriminate.
+    rewrite (dls_no_marker (length (b :: t)) _ _ _ (le_n _) Ha Hm). cbn [rev app]. apply dec_ascii. exact Ha.
   Qed.
 End Proofs.
